@@ -247,6 +247,15 @@ class Gen(object):
             k = wchoice(rng, kinds)
             if k == "nsobj":
                 have = self.scope_prefixes(ch, self.ns_obj)
+                if rng.random() < self.p.get("p_foreign_nsobj", 0.08):
+                    # a Namespace object obtained from *another* container (user code keeps
+                    # `ex = doc1.add_namespace(...)` around and uses ex[...] with doc2 as well)
+                    others = [(p, u, c) for c in list(self.ns_obj) if c != ch for p, u in self.ns_obj[c]]
+                    if others:
+                        p, u, owner = rng.choice(others)
+                        if self._ns_allowed(ch, p, u):
+                            self.ns_req[ch].append((p, u))
+                            return ["nsobj", owner, p, self.local()]
                 if not have:
                     continue
                 p, u, owner = rng.choice(have)
